@@ -293,7 +293,8 @@ class Summary:
         out = []
         for v, _, _ in self.returns:
             for x in (v if isinstance(v, tuple) else (v,)):
-                if isinstance(x, Ref):
+                if isinstance(x, Ref) and x.name not in out:
+                    # (the same array returned from several exits - an early return - is one result; what was written on each path is in the stores' guards)
                     out.append(x.name)
         return out
 
@@ -361,6 +362,7 @@ class KEval:
         self._fresh = 0
         self._allocs: Dict[str, Ref] = {}
         self.cmp_oracle = None  # optional: (Poly, op, Poly) -> bool | None, e.g. a fixed ordering of the inputs
+        self.none_defaults_const = True  # a parameter the rule does not supply and whose default is None IS None (the documented contract of the function as it is called without the option); False: analyse it symbolically
         self.model_unbound = False  # raise KUnbound when a local is read before any assignment reaches it
 
     def fresh(self, base: str) -> str:
@@ -384,7 +386,8 @@ class KEval:
             elif p in func.defaults:
                 dv = self.ev(func.defaults[p], {}, S, func, (), (), depth)
                 # a None default is the "not supplied" sentinel: analyse the parameter symbolically
-                env[p] = Ref(prefix + p) if (isinstance(dv, Const) and dv.v is None) else dv
+                # (unless the rule asks for the documented contract with the optional arguments left out)
+                env[p] = Ref(prefix + p) if (isinstance(dv, Const) and dv.v is None and not self.none_defaults_const) else dv
             elif p in ("self", "cls"):
                 env[p] = Ref(p)
             else:
